@@ -96,6 +96,19 @@ def chunked(it, n):
         yield c
 
 
+def _kill_pool(pool):
+    if pool is None:
+        return
+    try:
+        for p in list(getattr(pool, '_pool', [])):
+            try:
+                p.kill()
+            except Exception:
+                pass
+    except Exception:
+        pass
+
+
 def main(g):
     ap = argparse.ArgumentParser()
     ap.add_argument("--tier", default=os.environ.get("VERIF_TIER", "quick"), choices=["quick", "thorough"])
@@ -172,10 +185,9 @@ def main(g):
             if time.time() - t0 > budget:
                 truncated = True
                 break
-    finally:
-        if pool is not None:
-            pool.terminate()
-            pool.join()
+    except BaseException:
+        _kill_pool(pool)
+        raise
     res = {
         "property": prop, "tier": a.tier, "seed": a.seed,
         "scope": g["SCOPE"][a.tier], "exhaustive": bool(g.get("EXHAUSTIVE", {}).get(a.tier, False)) and not truncated,
@@ -200,4 +212,11 @@ def main(g):
     print("floor %s tier=%s evaluations=%d distinct_nontrivial=%d failures=%d harness_errors=%d wall=%.1fs%s" % (
         prop, a.tier, evaluations, len(keys), len(failures), len(harness_errors), time.time() - t0,
         " (truncated by budget)" if truncated else ""), file=sys.stderr)
-    sys.exit(3 if harness_errors else 0)
+    code = 3 if harness_errors else 0
+    sys.stdout.flush(); sys.stderr.flush()
+    if pool is not None:
+        # Pool.terminate()/join() can deadlock when a worker is killed while writing a large result (budget cut):
+        # the result file is already written, so kill the workers and leave without the pool's tear-down.
+        _kill_pool(pool)
+        os._exit(code)
+    sys.exit(code)
